@@ -17,7 +17,7 @@ def run(ctx):
         "qualifier is the citation rewrite."
     )
     r.not_decided = ["Biopython's shift arithmetic for compound and fuzzy locations", "the 'conversely' direction follows from (c) only"]
-    run_kernels(ctx, ["K5", "K7", "K8", "K3", "K14", "K16"], "C08")
+    run_kernels(ctx, ["K5", "K7", "K8", "K3", "K14", "K16", "K13"], "C08")  # K13: a citation qualifier keeps designating its reference
     from ..rules_flow import getitem_rule
     ctx.guard(getitem_rule, ctx, "C08.slice")
     eff, sites = assembly_write_set(ctx, "C08.write-set")
